@@ -457,10 +457,8 @@ def hx5(F, R):
                 if not g or not all(f[2] <= small for f in g):
                     R.bad("HX5", "HX5/Hex::from_slice/inline-form-not-limited-to-8", b.where(site),
                           "the inline form is chosen for a slice that may be longer than 8 bytes (the copy then panics or bytes are lost)", detail)
-                elif not any(f[2] == small for f in g):
-                    R.bad("HX5", "HX5/Hex::from_slice/inline-threshold", b.where(site),
-                          "the inline form is not chosen for every length up to 8 (threshold differs from HEX_SIZE)", detail)
                 else:
+                    # a lower threshold only moves short byte strings to the heap form, which every accessor treats alike
                     fs = dict(e[3])
                     if not is_len_of_slice(fs["1"]):
                         R.bad("HX5", "HX5/Hex::from_slice/recorded-length", b.where(site),
